@@ -1,4 +1,5 @@
-CONSTANT MAXIT = 6
+CONSTANTS MAXIT = 6
+          WIDE = FALSE
 INIT Init
 NEXT Next
 INVARIANT YIsObjective
